@@ -35,8 +35,8 @@ def lift (f : St → St) (d : DSt) : DSt := { d with st := f d.st }
 def groupByLabel : List (FInfo × Shape) → List (String × List (FInfo × Shape)) → List (String × List (FInfo × Shape))
   | [], acc => acc
   | (fi, sh) :: rest, acc =>
-    match (if fi.name == "__typename" then none else fi.deferred) with
-    | none => groupByLabel rest acc     -- `__typename` is written eagerly, never deferred
+    match (if fi.name == "__typename" || fi.plain then none else fi.deferred) with
+    | none => groupByLabel rest acc     -- `__typename` and plain struct fields are written eagerly, never deferred
     | some l =>
       match acc.findIdx? (·.1 == l) with
       | some i => groupByLabel rest (acc.modify i fun g => (g.1, g.2 ++ [(fi, sh)]))
@@ -84,7 +84,7 @@ def completeFields (o : Oracle) (ty : String) (inGroup : Bool) :
     List (FInfo × Shape) → Path → DSt → List (String × Out) × Nat × DSt
   | [], _, d => ([], 0, d)
   | (fi, sh) :: rest, p, d =>
-    if !inGroup && fi.deferred.isSome && fi.name != "__typename" then
+    if !inGroup && fi.deferred.isSome && fi.name != "__typename" && !fi.plain then
       -- `out.Values[i] = graphql.Null; continue`
       let rs := completeFields o ty inGroup rest p d
       ((fi.alias, Out.null) :: rs.1, rs.2.1, rs.2.2)
@@ -103,14 +103,14 @@ def completeField (o : Oracle) (fi : FInfo) (sh : Shape) (p : Path) (d : DSt) : 
   | (.block, st1) =>
     (.null, { d with st := if sh.nn && !st1.hasFieldError p then st1.addErr p mustNotBeNull else st1 })
   | (.reached, st1) =>
-    match o.res p with
+    match o.outcome fi p with
     | .missing => (.null, { d with st := { st1 with unlogged := st1.unlogged ++ [pathStr p] } })
-    | .err m => (.null, { d with st := (st1.invoked p "resolver").addErr p m })
+    | .err m => (.null, { d with st := (st1.resolved fi.plain p).addErr p m })
     | .panic m =>
-      let st2 := st1.invoked p "resolver"
+      let st2 := st1.resolved fi.plain p
       (.null, { d with st := { st2.addErr p ("recovered: " ++ m) with recovers := st2.recovers + 1 } })
     | .val v =>
-      let st2 := st1.invoked p "resolver"
+      let st2 := st1.resolved fi.plain p
       if sh.isIface && v.isNull then
         (.null, { d with st := if sh.nn && !st2.hasFieldError p then st2.addErr p mustNotBeNull else st2 })
       else completeValue o sh v p { d with st := st2 }
